@@ -1144,7 +1144,7 @@ def gen_scan_case(rng, stream='valid', api=None, kind='scan'):
       continue  # not visible inside the loop and cannot be created there: the body must not touch it
     # leaves of DIFFERENT ranks inside one collection (one axis entry covers them all, so a negative axis has to
     # be resolved per leaf); the flattening order (sorted names) puts the lower-rank leaf first or last
-    if nvars == 1 and rng.random() < 0.35:
+    if nvars == 1 and (rng.random() < 0.35 or (ir[0] == 'bcast' and is_mut[c] and check_const and rng.random() < 0.6)):
       nvars = 2
     extras = [[] for _ in range(nvars)]
     if nvars >= 2 and rng.random() < 0.6:
@@ -1186,7 +1186,14 @@ def gen_scan_case(rng, stream='valid', api=None, kind='scan'):
       def vshape(extra):
         sh = shape + extra
         return insert_axis(sh, norm_ax(ir[1], len(sh) + 1), n) if ir[0] == 'axis' else sh
-      outer.append([c, [[nm, rand_arr(rng, vshape(ex))] for nm, ex in col_vars]])
+      given = list(col_vars)
+      if ir[0] == 'bcast' and is_mut[c] and check_const and len(col_vars) >= 2 and rng.random() < 0.6:
+        # a mutable broadcast collection that is only PARTLY populated on entry: the body lazily creates the rest
+        # (loop-independent initialisers), which must be initialised once and published with the others
+        given = [v_ for v_ in col_vars if rng.random() < 0.5] or col_vars[:1]
+        if len(given) == len(col_vars):
+          given = col_vars[:-1]
+      outer.append([c, [[nm, rand_arr(rng, vshape(ex))] for nm, ex in given]])
     elif present and wild:
       outer.append([c, [[nm, rand_arr(rng, shape + ex)] for nm, ex in col_vars]])
   rng_regs = []
@@ -1862,6 +1869,104 @@ def check_submodule_case(ctx, case):
 
 
 # ------------------------------------------------------------------------------------------------
+# a broadcast collection shared with a SIBLING module: function-style nn.scan(body, variable_broadcast='params')
+# on the enclosing module after a sibling layer has already put variables into 'params' (init), or apply with
+# a partly populated mutable 'params' — the variables the body creates lazily must be initialised once and
+# published next to the existing ones
+# ------------------------------------------------------------------------------------------------
+
+
+class _P(nn.Module):
+  val: int = 1
+  d: int = 2
+
+  @nn.compact
+  def __call__(self, x):
+    w = self.param('w', lambda k: jnp.full((self.d,), self.val, jnp.int32))
+    b = self.param('b', lambda k: jnp.full((self.d,), self.val + 1, jnp.int32))
+    return w * x + b
+
+
+def _sib_modules(case):
+  inner_names, vals, d = case['inner'], case['vals'], case['d']
+
+  def step(c, x, layers):
+    for k_, lyr in enumerate(layers):
+      c = lyr(c) + (k_ + 1) * x
+    return c, c - x
+
+  class Lifted(nn.Module):
+    @nn.compact
+    def __call__(self, c, xs):
+      c = _P(val=case['sib_val'], d=d, name=case['sib'])(c)
+
+      def body(mdl, c, x):
+        return step(c, x, [_P(val=v, d=d, name=nm) for nm, v in zip(inner_names, vals)])
+
+      return nn.scan(body, variable_broadcast='params', split_rngs={'params': False}, in_axes=case['in_axis'],
+                     out_axes=case['out_axis'], reverse=case['reverse'], unroll=case['unroll'])(self, c, xs)
+
+  class Loop(nn.Module):
+    @nn.compact
+    def __call__(self, c, xs):
+      c = _P(val=case['sib_val'], d=d, name=case['sib'])(c)
+      layers = [_P(val=v, d=d, name=nm) for nm, v in zip(inner_names, vals)]
+      T = xs.shape[norm_ax(case['in_axis'], xs.ndim)]
+      ys = [None] * T
+      for t in (reversed(range(T)) if case['reverse'] else range(T)):
+        c, ys[t] = step(c, jnp.take(xs, t, axis=case['in_axis']), layers)
+      return c, jnp.stack(ys, axis=case['out_axis'])
+
+  return Lifted, Loop
+
+
+def gen_sibling_case(rng):
+  names = rng.sample(['dense', 'alpha', 'zz', 'cell', 'mid'], 3)
+  n_inner = rng.choice([1, 2])
+  return {'kind': 'sibling', 'sib': names[0], 'inner': names[1:1 + n_inner], 'sib_val': rng.randrange(1, 4),
+          'vals': [rng.randrange(-2, 4) for _ in range(n_inner)], 'd': rng.choice([2, 3]), 'T': rng.choice([2, 3]),
+          'in_axis': rng.choice([0, 1, -1]), 'out_axis': rng.choice([0, 1, -1]), 'reverse': rng.random() < 0.5,
+          'unroll': rng.choice([1, 2]), 'mode': rng.choice(['init', 'init', 'apply-partial']), 'vseed': rng.randrange(10 ** 6)}
+
+
+def check_sibling_case(ctx, case):
+  case = {k: v for k, v in case.items() if k != 'origin'}
+  ctx.case(case)
+  ctx.count('sibling_family', f"{case['mode']}/{len(case['inner'])} lazily created")
+  Lifted, Loop = _sib_modules(case)
+  r = np.random.RandomState(case['vseed'])
+  d, T = case['d'], case['T']
+  sh = [d]
+  sh.insert(norm_ax(case['in_axis'], 2), T)
+  c = jnp.asarray(r.randint(-2, 3, size=(d,)).astype(np.int32))
+  xs = jnp.asarray(r.randint(-2, 3, size=sh).astype(np.int32))
+
+  def run(M):
+    try:
+      if case['mode'] == 'init':
+        out, v = M().init_with_output(jax.random.key(0), c, xs)
+      else:
+        # the sibling's variables and the first lazily-created module's `w` are supplied; the rest is created
+        given = {case['sib']: {'w': jnp.full((d,), 5, jnp.int32), 'b': jnp.full((d,), -1, jnp.int32)}}
+        out, v = M().apply({'params': given}, c, xs, mutable=['params'])
+        v = {'params': {**given, **flax_core.unfreeze(v)['params']}}
+      return ('ok', _tree_json(jax.tree_util.tree_map(np.asarray, (out, flax_core.unfreeze(v)))))
+    except Exception as e:
+      return classify(e)
+
+  impl, orc = run(Lifted), run(Loop)
+  _housekeeping()
+  if orc[0] == 'err':
+    if impl[0] == 'ok':
+      ctx.violation('scan-sibling-works-where-loop-raises', f'the explicit loop raised {orc[1]} but the lifted scan returned a value', case)
+    return
+  if impl[0] == 'err':
+    ctx.violation('scan-sibling-raises-where-loop-works', f'nn.scan(body, variable_broadcast="params") next to sibling module {case["sib"]!r} raised {impl[1]}; the explicit loop works', case)
+  elif impl[1] != orc[1]:
+    ctx.violation('scan-sibling-broadcast-differs-from-loop', f'nn.scan(body, variable_broadcast="params") sharing "params" with sibling {case["sib"]!r} ({case["mode"]}): result / returned variable tree differ from the explicit loop: lifted={json.dumps(impl[1])[:300]} loop={json.dumps(orc[1])[:300]}', case)
+
+
+# ------------------------------------------------------------------------------------------------
 # entry points
 # ------------------------------------------------------------------------------------------------
 
@@ -1969,6 +2074,11 @@ def _role_stats(ctx, case):
     ctx.count('collection_role', name)
     if c not in present:
       ctx.count('created_inside_loop', name)
+    else:
+      have = {nm for cc, vs in case['outer'] if cc == c for nm, _ in vs}
+      want_ = {st[3] for st in case['prog']['stmts'] if st[0] == 'var' and st[2] == c}
+      if want_ - have:
+        ctx.count('partly_populated_collection', name)
     if c in written:
       ctx.count('written_in_loop', name)
     if ri != ro:
@@ -1989,6 +2099,8 @@ def run(ctx):
   check_axis_size_inference(ctx, drv, rng, thorough)
   for _ in range(16 if not thorough else 300):
     check_submodule_case(ctx, gen_submodule_case(rng))
+  for _ in range(8 if not thorough else 120):
+    check_sibling_case(ctx, gen_sibling_case(rng))
   n_scan, n_vmap, n_remat, n_wild = (62, 32, 14, 32) if not thorough else (1200, 600, 200, 600)
   cases = []
   for _ in range(n_scan):
@@ -2033,6 +2145,8 @@ def _run_case(ctx, drv, obj):
     check_axis_size_inference(ctx, drv, ctx.rng, True)
   elif kind == 'submods':
     check_submodule_case(ctx, case)
+  elif kind == 'sibling':
+    check_sibling_case(ctx, case)
   else:
     ctx.notes.append(f'unknown corpus case kind {kind}')
 
